@@ -545,7 +545,7 @@ func main() {
 	if thorough {
 		g.opSequences(4, abcd, "alt4", false)
 	} else {
-		for i := 0; i < 2000; i++ {
+		for i := 0; i < 1200; i++ {
 			n := 4 + rng.Intn(4)
 			var sb strings.Builder
 			sb.WriteString("a")
@@ -576,14 +576,14 @@ func main() {
 		for _, o1 := range binOps {
 			for _, u2 := range units {
 				k++
-				if !thorough && k%3 != 0 {
+				if !thorough && k%4 != 0 {
 					continue
 				}
-				g.parseCase(u1+" "+o1+" "+u2, thorough || k%21 == 0, "unit-op-unit")
+				g.parseCase(u1+" "+o1+" "+u2, thorough || k%20 == 0, "unit-op-unit")
 			}
 		}
 	}
-	nU := 1500
+	nU := 1000
 	if thorough {
 		nU = 60000
 	}
@@ -607,7 +607,7 @@ func main() {
 			}
 		}
 	}
-	nS := 2000
+	nS := 1200
 	if thorough {
 		nS = 40000
 	}
@@ -654,7 +654,7 @@ func main() {
 			}
 		}
 	}
-	nT := 4000
+	nT := 2000
 	if thorough {
 		nT = 300000
 	}
